@@ -985,11 +985,13 @@ pub fn run_history_x(case: &Case, prof: &Profile, dir: &Path, opts: &HistOpts) -
     }
     if prof.big_log_pct > 0 && mt.chance(prof.big_log_pct) {
         if let Some(uid) = world.disk.steps.iter().find(|s| s.deps != 0 && !s.regen).map(|s| s.uid) {
-            let n = 150 + mt.below(1300);
+            // many short names, or fewer long ones: either way the log passes 8 KiB
+            let long_names = mt.chance(70);
+            let n = if long_names { 45 + mt.below(70) } else { 150 + mt.below(900) };
             let pad = mt.below(24);
             let mut extra = vec![];
             for i in 0..n {
-                let f = format!("big/h{}{}", i, "x".repeat((pad + i) % 24));
+                let f = if long_names { format!("big/h{}{}", i, "x".repeat(150 + (pad * 7 + i * 13) % 90)) } else { format!("big/h{}{}", i, "x".repeat((pad + i) % 24)) };
                 world.write_source(&f);
                 extra.push(f);
             }
